@@ -142,7 +142,14 @@ def has_safe_repr(value: t.Any) -> bool:
 
         return True
 
-    if type(value) in {bool, complex, range, str, Markup}:
+    if type(value) is complex:
+        # like float: (1+infj) and (nan+0j) are not literals
+        return all(
+            p == p and p not in (float("inf"), float("-inf"))
+            for p in (value.real, value.imag)
+        )
+
+    if type(value) in {bool, range, str, Markup}:
         return True
 
     if type(value) in {tuple, list}:
